@@ -613,6 +613,12 @@ def do_backup(options):
             log('file shrunk, possibly because of a pack (full backup)')
             do_full_backup(options)
             return
+        # The checksum of an empty last increment matches whatever the
+        # source file holds now: it cannot tell whether the file was packed.
+        if startpos == endpos:
+            log('last incremental is empty, cannot check (full backup)')
+            do_full_backup(options)
+            return
         # Now check the md5 sum of the source file, from the last
         # incremental's start and stop positions.
         srcfp = open(options.file, 'rb')
